@@ -282,7 +282,8 @@ fn gen_fields_n(r: &mut R, pool: &[PoolTy], pinned: bool, n: usize, avoid_key: O
             f.map = Some(r.probe());
         }
         // custom missing function
-        if !f.skip && matches!(f.dflt, Dflt::None) && r.chance(0.15) {
+        // also together with a default (the default then wins: the function is never called)
+        if !f.skip && (matches!(f.dflt, Dflt::None) || r.chance(0.3)) && r.chance(0.15) {
             f.missing_fn = Some(r.probe());
         }
         if pinned && !f.skip && r.chance(0.4) {
